@@ -3,7 +3,7 @@ use sway_types::Span;
 
 use crate::CompileError;
 
-use super::patstack::PatStack;
+use super::{patstack::PatStack, pattern::Pattern};
 
 /// A `Matrix` is a `Vec<PatStack>` that is implemented with special methods
 /// particular to the match exhaustivity algorithm.
@@ -80,10 +80,25 @@ impl Matrix {
         handler: &Handler,
         span: &Span,
     ) -> Result<PatStack, ErrorEmitted> {
+        // Σ is the set of root *constructors* of the first column: wildcards are
+        // not constructors and an or-pattern contributes the constructors of its
+        // alternatives.
+        fn push_root_constructors(pat: Pattern, pat_stack: &mut PatStack) {
+            match pat {
+                Pattern::Wildcard => {}
+                Pattern::Or(alternatives) => {
+                    for alternative in alternatives.into_iter() {
+                        push_root_constructors(alternative, pat_stack);
+                    }
+                }
+                pat => pat_stack.push(pat.into_root_constructor()),
+            }
+        }
+
         let mut pat_stack = PatStack::empty();
         for row in self.rows.iter() {
             let first = row.first(handler, span)?;
-            pat_stack.push(first.into_root_constructor())
+            push_root_constructors(first, &mut pat_stack);
         }
         Ok(pat_stack.remove_duplicates())
     }
